@@ -1065,7 +1065,7 @@ fn main() {
 
     let mut run = Run::new(&prop, "model_checking", &args);
     let mut opts = PoolOpts::default();
-    opts.item_timeout = std::time::Duration::from_secs(180);
+    opts.item_timeout = std::time::Duration::from_secs(900);
     let res = pool::run_stage("worlds", scs.len(), &opts);
     let mut outcomes: BTreeMap<String, u64> = BTreeMap::new();
     let mut samples = vec![];
